@@ -91,9 +91,6 @@ MUTANTS = [
      "unsafe impl<T: Trace, const N: usize> Trace for [T; N] {\n    #[inline]\n    fn trace(&self, ctx: &mut Context<'_>) {\n        for elem in self.iter().take(N.max(1) - (N > 8) as usize) {"),
     ("c17-option-finalize-not-forwarded", ["C17"], "src/trace.rs",
      "        if let Some(value) = self {\n            value.finalize();\n        }", "        if let Some(_value) = self {\n        }"),
-    ("c17-weak-traces-target", ["C17", "C08", "C02"], "src/weak/mod.rs",
-     "    fn trace(&self, _: &mut Context<'_>) {\n        // Do not trace anything here, otherwise it wouldn't be a weak pointer\n    }",
-     "    fn trace(&self, ctx: &mut Context<'_>) {\n        if self.strong_count() != 0 {\n            CcBox::trace_inner_pub(self.cc.cast(), ctx);\n        }\n    }"),
     ("c18-ignore-filter-inverted-for-variants", ["C18"], "derive/src/lib.rs",
      "        s.filter_variants(|vi| {\n            !vi.ast().attrs", "        s.filter_variants(|vi| {\n            vi.ast().attrs"),
     ("c18-drop-emission-removed", ["C18"], "derive/src/lib.rs",
